@@ -1499,7 +1499,8 @@ class QasmVisitor:
 
             # Update scope with current value of loop Variable
             if i is not None:
-                i.value = ival
+                # the loop variable receives the element as an assignment to its declared type would
+                i.value = Qasm3Validator.validate_variable_assignment_value(i, ival)
                 self._update_var_in_scope(i)
 
             result.extend(self.visit_basic_block(statement.block))
